@@ -222,16 +222,23 @@ theorem ucase_TREE : ucase ['T', 'R', 'E', 'E'] = ['T', 'R', 'E', 'E'] := by dec
 /-- what reading one named line yields -/
 def namedResult (o : WOpts) (ro : ROpts) (x : Str × WT) : Str × PT := (x.1, resultOf o ro x.2)
 
+/-- …with the tree given by `nt` (e.g. taxon tags sent through the TRANSLATE table) -/
+def namedWith (nt : Str × WT → NT) (o : WOpts) (ro : ROpts) (x : Str × WT) : Str × PT :=
+  (x.1, ⟨(treeComments ro (comments o x.2.1 x.2.2.1) none none).1, (treeComments ro (comments o x.2.1 x.2.2.1) none none).2, nt x⟩)
+
+theorem namedResult_eq (o : WOpts) (ro : ROpts) :
+    namedResult o ro = namedWith (fun x => decode ro (toRT o x.2.2.2)) o ro := rfl
+
 /-- the `TREE` commands of a block, for a mapper that every statement leaves unchanged -/
-theorem tree_stmts (o : WOpts) (ro : ROpts) (m : Mapper) (tailToks : List TokE)
+theorem tree_stmts (o : WOpts) (ro : ROpts) (m : Mapper) (nt : Str × WT → NT) (tailToks : List TokE)
     (htail : skipSemis false tailToks = tailToks ∧ ∀ t r, tailToks = t :: r → ucase t.text ≠ ['T', 'R', 'E', 'E']) (htne : tailToks ≠ []) :
     ∀ (trees : List (Str × WT)) (gs : List (List TokE)), LineGroups o trees gs →
     (∀ x ∈ trees, isBlank (toRT o x.2.2.2) = false ∧
-      ∃ seen, assign ro (toRT o x.2.2.2) ⟨m, []⟩ = some (decode ro (toRT o x.2.2.2), ⟨m, seen⟩)) →
+      ∃ seen, assign ro (toRT o x.2.2.2) ⟨m, []⟩ = some (nt x, ⟨m, seen⟩)) →
     ∀ (kw : TokE) (body : List TokE) (gs' : List (List TokE)), gs = (kw :: body) :: gs' → trees ≠ [] →
     ∀ (acc : List (Str × PT)) (f : Nat), trees.length ≤ f →
     nexusTreeStmts ro false f (body ++ (gs'.flatten ++ tailToks)) m acc =
-      some (acc ++ trees.map (namedResult o ro), tailToks, m) := by
+      some (acc ++ trees.map (namedWith nt o ro), tailToks, m) := by
   intro trees
   induction trees with
   | nil => intro gs _ _ kw body gs' _ hne; exact absurd rfl hne
@@ -264,7 +271,7 @@ theorem tree_stmts (o : WOpts) (ro : ROpts) (m : Mapper) (tailToks : List TokE)
               cases q <;> simp [kind]
           simp [skipSemis, this]
     have hone := one_tree o ro x.2 hb first rest (gs'.flatten ++ tailToks) hk hcm hmore m m
-      (decode ro (toRT o x.2.2.2)) seen hassign
+      (nt x) seen hassign
     have hnstar : ¬ (nm.text = ['*'] ∧ nm.quoted = false) := by
       intro ⟨h1, h2⟩; rw [hstar h1] at h2; cases h2
     have hl : (nm :: eq :: first :: rest) ++ (gs'.flatten ++ tailToks) = nm :: eq :: ((first :: rest) ++ (gs'.flatten ++ tailToks)) := rfl
@@ -286,7 +293,7 @@ theorem tree_stmts (o : WOpts) (ro : ROpts) (m : Mapper) (tailToks : List TokE)
         | nil => exact absurd htl htne
         | cons t r =>
           have := htail.2 t r htl
-          simp [this, namedResult, resultOf, hnm]
+          simp [this, namedWith, hnm]
     | cons y ys =>
       cases gs' with
       | nil => exact absurd hrestg (by simp [LineGroups])
@@ -297,15 +304,15 @@ theorem tree_stmts (o : WOpts) (ro : ROpts) (m : Mapper) (tailToks : List TokE)
         have hu : ucase kw2.text = ['T', 'R', 'E', 'E'] := by rw [hkw2]; exact ucase_TREE
         have hih := ih ((kw2 :: nm2 :: eq2 :: f2 :: r2) :: gs'') ⟨⟨kw2, nm2, eq2, f2, r2, rfl, hkw2, hrest3⟩, hrest2⟩
           (fun z hz => hx z (by simp [hz])) kw2 (nm2 :: eq2 :: f2 :: r2) gs'' rfl (by simp)
-          (acc ++ [(nm.text, resultOf o ro x.2)]) f' (by simp at hf ⊢; omega)
+          (acc ++ [namedWith nt o ro x]) f' (by simp at hf ⊢; omega)
         have hfl : ((kw2 :: nm2 :: eq2 :: f2 :: r2) :: gs'').flatten ++ tailToks =
             kw2 :: ((nm2 :: eq2 :: f2 :: r2) ++ (gs''.flatten ++ tailToks)) := by simp
         rw [hfl]
         simp only [hu, beq_self_eq_true, if_true]
-        have hres : (⟨(treeComments ro (comments o x.2.1 x.2.2.1) none none).1, (treeComments ro (comments o x.2.1 x.2.2.1) none none).2,
-            decode ro (toRT o x.2.2.2)⟩ : PT) = resultOf o ro x.2 := rfl
+        have hres : (nm.text, (⟨(treeComments ro (comments o x.2.1 x.2.2.1) none none).1, (treeComments ro (comments o x.2.1 x.2.2.1) none none).2,
+            nt x⟩ : PT)) = namedWith nt o ro x := by rw [hnm]; rfl
         rw [hres, hih]
-        simp [namedResult, hnm]
+        simp
 
 theorem linegroups_len (o : WOpts) : ∀ (xs : List (Str × WT)) (gs : List (List TokE)), LineGroups o xs gs → xs.length ≤ gs.flatten.length
   | [], [], _ => by simp
